@@ -75,6 +75,7 @@ PROPS = {
         assumptions=["timestamps normalised and below 2^63 ticks (property precondition)", "response question list governed by the query-question-sections hint bit (library documentation)",
                      "statistics are not attached to calls that store nothing when max_block_items == 0 (excluded by construction, counted)"],
         jobs=[
+            dict(harness="hist", prop="hist_c01align", kind="enum"),
             dict(harness="hist", prop="hist_c01", cases=(12000, 300000), size=(40, 120)),
             dict(harness="hist", prop="hist_c01big", cases=(600, 20000), size=(40, 150)),
             dict(harness="hist", prop="hist_c01huge", cases=(64, 3200), size=(40, 60)),
@@ -90,7 +91,10 @@ PROPS = {
         level_note="validator checks exactly the conditions listed in the property (no CDDL '+' cardinalities, no canonical order); trusts lib/cbor_ref.hpp, lib/cdns_ref.hpp",
         technique="property-based testing: stateful histories (rapidcheck) + independent strict parser/validator as oracle",
         assumptions=["ae-transport-flags treated as optional (the library API makes it optional)"],
-        jobs=[dict(harness="hist", prop="hist_c02", cases=(12000, 300000), size=(40, 120))],
+        jobs=[
+            dict(harness="hist", prop="hist_c02align", kind="enum"),
+            dict(harness="hist", prop="hist_c02", cases=(12000, 300000), size=(40, 120)),
+        ],
     ),
     "C04": dict(
         rule="records with ~7/8 of all optional members set x hint masks (all-ones, all-zero, exactly one bit cleared, exactly one bit set, random; several sets per file). "
@@ -114,6 +118,7 @@ PROPS = {
         technique="property-based testing: stateful histories (rapidcheck) with accounting invariant",
         assumptions=[],
         jobs=[
+            dict(harness="hist", prop="hist_c10align", kind="enum"),
             dict(harness="hist", prop="hist_c10", cases=(8000, 200000), size=(40, 120)),
             dict(harness="tables", prop="c10_struct", cases=(48000, 1600000), size=(30, 60)),
         ],
@@ -143,7 +148,10 @@ PROPS = {
         level_note="records still buffered at destruction are by design not written (documented usage calls write_block first); the model accounts for them as buffered",
         technique="property-based testing: stateful histories (rapidcheck) with snapshot + conservation oracle",
         assumptions=[],
-        jobs=[dict(harness="hist", prop="hist_c13", cases=(8000, 200000), size=(40, 120))],
+        jobs=[
+            dict(harness="hist", prop="hist_c13align", kind="enum"),
+            dict(harness="hist", prop="hist_c13", cases=(8000, 200000), size=(40, 120)),
+        ],
     ),
 
     "C05": dict(
